@@ -70,6 +70,10 @@ var targets = []target{
 	{"oauthproxy.go", "isAllowedPath", "", ""},
 	{"oauthproxy.go", "isAllowedRoute", "OAuthProxy", "allowedRoutes:routes"},
 	{"pkg/app/redirect/validator.go", "IsValidRedirect", "validator", "allowedDomains:strs"},
+	{"oauthproxy.go", "encodeState", "", ""},
+	{"oauthproxy.go", "decodeState", "", ""},
+	{"pkg/encryption/nonce.go", "HashNonce", "", ""},
+	{"pkg/encryption/nonce.go", "CheckNonce", "", ""},
 	{"oauthproxy.go", "extractAllowedEntities", "", ""},
 	{"oauthproxy.go", "checkAllowedGroups", "", ""},
 	{"oauthproxy.go", "checkAllowedEmails", "", ""},
@@ -106,6 +110,8 @@ const (
 	kSet     = "set"
 	kQuery   = "queryvals"
 	kSess    = "session"
+	kOptStr  = "optstr"
+	kSha     = "sha"
 	kAny     = "?"
 )
 
@@ -159,6 +165,10 @@ func leanOfKind(k string) string {
 		return "Str → List Str"
 	case kSess:
 		return "Go.Session"
+	case kOptStr:
+		return "Option Str"
+	case kSha:
+		return "Go.Sha"
 	}
 	panic("no Lean type for kind " + k)
 }
@@ -278,6 +288,7 @@ type tr struct {
 	named      []string // named results
 	results    []string
 	loopRet    int               // >0 inside a forRange body
+	rawOpt     bool              // pass an optional byte slice on as it is (argument of a translated function that takes one)
 	breakFlag  []string          // per enclosing loop: the carried flag that encodes `break` ("" if the loop has none)
 	recvFields map[string]string // "recv.field" -> kind
 	mutable    map[string]bool   // variables that are assigned after their declaration
@@ -336,6 +347,9 @@ func (t *tr) expr(e ast.Expr) (string, string) {
 			return x.Name, kBool
 		}
 		if k, ok := t.kinds[x.Name]; ok {
+			if k == kOptStr && !t.rawOpt {
+				return "(" + ident(x.Name) + ".getD [])", kStr // a nil slice used as bytes is the empty slice
+			}
 			return ident(x.Name), k
 		}
 		if c, ok := t.consts[x.Name]; ok {
@@ -535,6 +549,11 @@ func balancedWhole(c string) bool {
 }
 
 func (t *tr) binary(x *ast.BinaryExpr) (string, string) {
+	if (x.Op == token.EQL || x.Op == token.NEQ) && exprString(x.Y) == "nil" {
+		if id, ok := x.X.(*ast.Ident); ok && t.kinds[id.Name] == kOptStr {
+			return "(" + ident(id.Name) + " " + map[token.Token]string{token.EQL: "==", token.NEQ: "!="}[x.Op] + " none)", kBool
+		}
+	}
 	l, lk := t.expr(x.X)
 	r, rk := t.expr(x.Y)
 	switch x.Op {
@@ -704,6 +723,15 @@ func (t *tr) call(x *ast.CallExpr) (string, string) {
 		return "(Go.urlParse E " + a()[0] + ")", "tuple:url,err"
 	case "url.ParseRequestURI":
 		return "(Go.urlParseRequestURI E " + a()[0] + ")", "tuple:url,err"
+	case "strings.SplitN":
+		if exprString(x.Args[2]) != "2" {
+			fail("strings.SplitN with n other than 2")
+		}
+		return "(Go.stringsSplitN2 " + a()[0] + " " + a()[1] + ")", kStrs
+	case "errors.New":
+		return "(some ([] : Str))", kErr
+	case "sha256.New":
+		return "Go.shaNew", kSha
 	case "strings.Index":
 		return "(Go.stringsIndex " + strings.Join(a(), " ") + ")", kInt
 	case "strings.IndexRune":
@@ -745,6 +773,12 @@ func (t *tr) call(x *ast.CallExpr) (string, string) {
 		if id, ok := sel.X.(*ast.Ident); ok {
 			if k, ok := t.kinds[id.Name]; ok {
 				switch k + "." + sel.Sel.Name {
+				case "sha.Sum":
+					arg := "([] : Str)"
+					if exprString(x.Args[0]) != "nil" {
+						arg = a()[0]
+					}
+					return "(Go.shaSum E " + ident(id.Name) + " " + arg + ")", kStr
 				case "header.Get":
 					return "(" + ident(id.Name) + " " + a()[0] + ")", kStr
 				case "hmac.Sum":
@@ -811,7 +845,9 @@ func (t *tr) call(x *ast.CallExpr) (string, string) {
 					as = append(as, "()")
 					continue
 				}
+				t.rawOpt = s.params[i] == kOptStr
 				c, _ := t.expr(x.Args[i])
+				t.rawOpt = false
 				as = append(as, atom(c))
 			}
 			if s.variadic {
@@ -955,6 +991,18 @@ func (t *tr) stmt(o *out, ind int, s ast.Stmt) {
 				}
 			}
 		}
+		// decoded, _ := base64.RawURLEncoding.DecodeString(s): the error is DISCARDED, what the decoder hands back on bad input (the bytes
+		// decoded so far) is used: that lenient function is an external
+		if len(x.Lhs) == 2 && len(x.Rhs) == 1 && x.Tok == token.DEFINE && exprString(x.Lhs[1]) == "_" {
+			if c, ok := x.Rhs[0].(*ast.CallExpr); ok && exprString(c.Fun) == "base64.RawURLEncoding.DecodeString" {
+				if id, ok := x.Lhs[0].(*ast.Ident); ok {
+					a, _ := t.expr(c.Args[0])
+					t.kinds[id.Name] = kStr
+					o.add(ind, t.letKw([]string{id.Name})+" "+ident(id.Name)+" := E.b64RawUrlLenient "+atom(a))
+					return
+				}
+			}
+		}
 		// m[k] = struct{}{} on a set; _, ok := m[k]
 		if len(x.Lhs) == 1 && len(x.Rhs) == 1 && x.Tok == token.ASSIGN {
 			if ix, ok := x.Lhs[0].(*ast.IndexExpr); ok {
@@ -1080,6 +1128,11 @@ func (t *tr) stmt(o *out, ind int, s ast.Stmt) {
 				if id, ok := sel.X.(*ast.Ident); ok && t.kinds[id.Name] == kHmac {
 					a, _ := t.expr(c.Args[0])
 					o.add(ind, ident(id.Name)+" := Go.hmacWrite "+ident(id.Name)+" "+atom(a))
+					return
+				}
+				if id, ok := sel.X.(*ast.Ident); ok && t.kinds[id.Name] == kSha {
+					a, _ := t.expr(c.Args[0])
+					o.add(ind, ident(id.Name)+" := Go.shaWrite "+ident(id.Name)+" "+atom(a))
 					return
 				}
 			}
@@ -1282,6 +1335,20 @@ func (t *tr) stmt(o *out, ind int, s ast.Stmt) {
 	default:
 		fail("statement %T", s)
 	}
+}
+
+// is the variable compared with nil anywhere in the body?
+func comparedWithNil(b *ast.BlockStmt, name string) bool {
+	found := false
+	ast.Inspect(b, func(n ast.Node) bool {
+		if be, ok := n.(*ast.BinaryExpr); ok && (be.Op == token.EQL || be.Op == token.NEQ) {
+			if id, ok := be.X.(*ast.Ident); ok && id.Name == name && exprString(be.Y) == "nil" {
+				found = true
+			}
+		}
+		return true
+	})
+	return found
 }
 
 // does the loop body contain a `break` of THIS loop (not of a nested loop or switch)?
@@ -1503,8 +1570,13 @@ func main() {
 					panic(r)
 				}
 			}()
-			pk, _, variadic := fieldKinds(fd.Type.Params)
+			pk, pn, variadic := fieldKinds(fd.Type.Params)
 			rk, _, _ := fieldKinds(fd.Type.Results)
+			for i := range pk {
+				if pk[i] == kStr && fd.Body != nil && comparedWithNil(fd.Body, pn[i]) {
+					pk[i] = kOptStr
+				}
+			}
 			for i := range rk {
 				if rk[i] == kCookie {
 					rk[i] = kHCookie
@@ -1512,6 +1584,47 @@ func main() {
 			}
 			t.sigs[tg.name] = sig{params: pk, variadic: variadic, results: rk}
 		}()
+	}
+	// nil-ness of a byte slice travels with it: a []byte parameter handed on, as it is, to a translated function that compares
+	// its parameter with nil is optional too
+	for changed := true; changed; {
+		changed = false
+		for _, tg := range targets {
+			fd := decls[tg.name]
+			sg, ok := t.sigs[tg.name]
+			if fd == nil || !ok || fd.Body == nil {
+				continue
+			}
+			_, pn, _ := fieldKinds(fd.Type.Params)
+			ast.Inspect(fd.Body, func(n ast.Node) bool {
+				c, ok := n.(*ast.CallExpr)
+				if !ok {
+					return true
+				}
+				id, ok := c.Fun.(*ast.Ident)
+				if !ok {
+					return true
+				}
+				callee, ok := t.sigs[id.Name]
+				if !ok {
+					return true
+				}
+				for i, a := range c.Args {
+					ai, ok := a.(*ast.Ident)
+					if !ok || i >= len(callee.params) || callee.params[i] != kOptStr {
+						continue
+					}
+					for j, name := range pn {
+						if name == ai.Name && sg.params[j] == kStr {
+							sg.params[j] = kOptStr
+							changed = true
+						}
+					}
+				}
+				return true
+			})
+			t.sigs[tg.name] = sg
+		}
 	}
 	var body []string
 	var names []string
